@@ -14,8 +14,10 @@ use native_tls::{Error, HandshakeError, MidHandshakeTlsStream};
 
 use super::common::AllowStd;
 
+/// The second field records that `close_notify` was handed to the transport
+/// already, so that a re-polled `poll_close` only has to finish flushing it.
 #[derive(Debug)]
-pub struct TlsStream<S>(native_tls::TlsStream<AllowStd<S>>);
+pub struct TlsStream<S>(native_tls::TlsStream<AllowStd<S>>, bool);
 
 #[derive(Clone)]
 pub struct TlsConnector(native_tls::TlsConnector);
@@ -113,7 +115,13 @@ where
     }
 
     fn poll_close(mut self: Pin<&mut Self>, ctx: &mut Context<'_>) -> Poll<io::Result<()>> {
-        self.with_context(ctx, |s| s.shutdown())
+        if !self.1 {
+            std::task::ready!(self.with_context(ctx, |s| s.shutdown()))?;
+            self.1 = true;
+        }
+        // `SSL_shutdown` ignores the result of flushing the BIO, so a transport
+        // whose flush returned pending would keep `close_notify` in its buffer.
+        self.with_context(ctx, |s| s.get_mut().flush())
     }
 }
 
@@ -160,7 +168,7 @@ where
         match (inner.f)(stream) {
             Ok(mut s) => {
                 s.get_mut().clear_context();
-                Poll::Ready(Ok(StartedHandshake::Done(TlsStream(s))))
+                Poll::Ready(Ok(StartedHandshake::Done(TlsStream(s, false))))
             }
             Err(HandshakeError::WouldBlock(mut s)) => {
                 s.get_mut().clear_context();
@@ -224,7 +232,7 @@ impl<S: AsyncRead + AsyncWrite + Unpin> Future for MidHandshake<S> {
         match s.handshake() {
             Ok(mut s) => {
                 s.get_mut().clear_context();
-                Poll::Ready(Ok(TlsStream(s)))
+                Poll::Ready(Ok(TlsStream(s, false)))
             }
             Err(HandshakeError::WouldBlock(mut s)) => {
                 s.get_mut().clear_context();
